@@ -72,3 +72,22 @@ type QTagged struct {
 	PP *QTagged       `json:"pp,omitempty"`
 	Z  int            `json:"z"`
 }
+
+// QCtxFirst: the context-aware marshaler is the first member (a struct head opcode fused with the
+// marshaler call), alone, followed by others, and nested.
+type QCtxFirst struct {
+	Cm QCtxM
+	A  int
+	B  string `json:"b"`
+}
+
+type QCtxOnly struct {
+	Cm QCtxM
+}
+
+type QCtxHolder struct {
+	H  QCtxFirst
+	O  *QCtxOnly
+	Sl []QCtxFirst
+	X  int
+}
